@@ -140,17 +140,33 @@ class C16(Prop):
             import subprocess
             mis_exe, _ = repolib.build_driver('drv_C16', repo)
             lst = subprocess.run([mis_exe, 'list'], capture_output=True, text=True).stdout.split('\n')
-            mcases = [Case(l, 'misuse') for l in lst if l.startswith('misuse ')]
+            mcases = [Case(l, 'misuse') for l in lst if l.startswith('misuse ') or l.startswith('value ')]
             mres, _ = run_sharded(mis_exe, lambda cf, wd: [cf, wd], mcases, 'C16-misuse', True)
-            for c, il in zip(mcases, mres):
+            # the value-type lines also have a model (ocaml/drv_C16.ml over Gen/GenNDSize.v): ANY where it is silent
+            vmodel = coqlib.build_model_driver('C16', repo)
+            vres, _ = run_sharded(vmodel, lambda cf, wd: [cf], mcases, 'C16-value-model', False)
+            for c, il, ml in zip(mcases, mres, vres):
                 total += 1
-                dist['misuse'] = dist.get('misuse', 0) + 1
+                dist['misuse' if c.lines[0].startswith('misuse') else 'value'] = dist.get('misuse' if c.lines[0].startswith('misuse') else 'value', 0) + 1
                 a = il[0]
+                mo = ml[0] if ml and ml[0] else 'ANY'
+                if mo != 'ANY' and not a.startswith('CRASH') and not self.compare(a, mo):
+                    sig = {'sub': 'value', 'kind': 'model-disagrees', 'call': c.lines[0]}
+                    if len(violations) < engine.MAX_REPORT:
+                        pth = write_replay(self, len(violations) + 1, c,
+                                           {'what': 'implementation answers %s where the model (regenerated NDSize operators) answers %s' % (a, mo),
+                                            'sub_property': 'misuse', 'signature': json.dumps(sig)})
+                        violations.append(pth)
+                        say('VIOLATION property=C16 replay=%s' % pth)
+                    continue
                 if a.startswith('OK') or a.startswith('ERR'):
                     nontrivial.add(hashlib.sha1(c.text().encode()).hexdigest())
                     continue
                 t = c.lines[0].split(' ')
+                t = t + ['-', '-', '-']
                 sig = {'sub': 'misuse', 'kind': 'crash', 'call': t[1], 'role': t[2], 'handle': t[3], 'why': a[6:].split(' ')[0][:80]}
+                if t[0] == 'value':
+                    sig = {'sub': 'value', 'kind': 'crash', 'call': t[1], 'role': t[2], 'why': sig['why']}
                 crashes_seen.append('misuse:%s:%s:%s' % (t[1], t[3], sig['why']))
                 matched = False
                 for kf in known:
